@@ -85,6 +85,25 @@ def main(argv):
         for i, vals in mism[:3]:
             print("   run {}: {}".format(i, vals))
         bad += len(mism)
+    # the replay files referenced by known_findings.json must still reproduce
+    try:
+        known = json.load(open(os.path.join(VERIF, "known_findings.json")))
+    except OSError:
+        known = {"findings": []}
+    stale = 0
+    for f in known.get("findings", []):
+        rp = f.get("replay")
+        if not rp:
+            continue
+        cp = subprocess.run([os.path.join(VERIF, "check"), "--replay", rp],
+                            capture_output=True, text=True, cwd=VERIF, timeout=600)
+        ok = "REPRODUCED sig=" + f["signature"] in cp.stdout
+        print("selftest replay {}: {}".format(os.path.basename(rp),
+                                              "reproduces" if ok else "DOES NOT REPRODUCE"), flush=True)
+        if not ok:
+            stale += 1
+    report["_kept_replays_stale"] = stale
+    bad += stale
     report["_total_wall_s"] = round(time.time() - t00, 1)
     with open(os.path.join(VERIF, "selftest_report.json"), "w") as f:
         json.dump(report, f, indent=1, sort_keys=True)
